@@ -111,10 +111,10 @@ Inductive op :=
 | OCall (i : nat) (m : string) (v : value)        (* $o->m(v): the T-typed parameter boundary, inside the history *)
 | ONewC (cls : string) (args : list cty) (v : value)   (* new G<args>(v) with a promoted constructor parameter *)
 | ONewRaw (cls : string).                         (* new G() without type arguments (NewExpression: the un-cloned ClassGeneric) *)
-(* NewFailed: GetOrLoadClass throws (unknown class), fewer type arguments than parameters are given (a script
-   error since fix c867350; before it a Go index-out-of-range panic that only try's recover caught), or the
-   constructor argument is rejected *)
-Inductive obs := Created | NewFailed | Accepted | Rejected | BadInst | Got (v : value).
+(* NewFailed: GetOrLoadClass throws (unknown class) or the constructor argument is rejected.
+   NewArity: fewer type arguments than parameters are given — a positioned script error of its own since fix
+   c867350 (before it a Go index-out-of-range panic that only try's recover caught); observed separately *)
+Inductive obs := Created | NewFailed | NewArity | Accepted | Rejected | BadInst | Got (v : value).
 
 Fixpoint upd_nth {A} (i : nat) (f : A -> A) (l : list A) : list A :=
   match l, i with
@@ -160,7 +160,7 @@ Definition step (st : state) (o : op) : state * obs :=
       | None => (st, NewFailed)
       | Some g =>
           match build_map (g_params g) args [] with
-          | None => (st, NewFailed)
+          | None => (st, NewArity)
           | Some m => ({| decls := decls st;
                           insts := (insts st ++ [{| i_cls := c; i_args := args; i_map := m; i_vals := [] |}])%list |},
                        Created)
@@ -200,13 +200,18 @@ Definition step (st : state) (o : op) : state * obs :=
       match lookup c (decls st) with
       | None => (st, NewFailed)
       | Some g =>
-          match build_map (g_params g) args [], g_ctor g with
-          | Some m, Some (p, d) =>
-              if ctor_promoted_accepts d m v
-              then ({| decls := decls st;
-                       insts := (insts st ++ [{| i_cls := c; i_args := args; i_map := m; i_vals := [(p, v)] |}])%list |}, Created)
-              else (st, NewFailed)
-          | _, _ => (st, NewFailed)
+          (* resolveClass (type arguments) runs before the constructor is looked at *)
+          match build_map (g_params g) args [] with
+          | None => (st, NewArity)
+          | Some m =>
+              match g_ctor g with
+              | Some (p, d) =>
+                  if ctor_promoted_accepts d m v
+                  then ({| decls := decls st;
+                           insts := (insts st ++ [{| i_cls := c; i_args := args; i_map := m; i_vals := [(p, v)] |}])%list |}, Created)
+                  else (st, NewFailed)
+              | None => (st, NewFailed)
+              end
           end
       end
   | ONewRaw c =>
